@@ -12,7 +12,7 @@ import ast
 import copy
 
 from rsa.model import AnchorError, Undecided, call_name, dotted_name, unparse, walk_no_nested
-from rsa.terms import canon, inline_locals, negated, single_defs
+from rsa.terms import canon, const_value, inline_locals, negated, single_defs
 from rsa.util import find_calls, require
 
 METHODS = "resonaate.physics.transforms.methods"
@@ -1004,6 +1004,438 @@ def rule_r8(chk, p, t, rid="C04.R8"):
     r.guard(fn.qualname, one)
 
 
+# ====================================================================== R9
+def _local_defs(fn):
+    defs = {}
+    for n in walk_no_nested(fn.node):
+        if isinstance(n, (ast.Assign, ast.AnnAssign)) and n.value is not None:
+            tg = n.targets[0] if isinstance(n, ast.Assign) else n.target
+            if isinstance(tg, ast.Name):
+                defs.setdefault(tg.id, []).append(n.value)
+    return defs
+
+
+def _vec_form(e, defs, ref, depth=0):
+    """Abstract direction of a 3-vector expression built from the reference state `ref`:
+    ("p",) = ref[:3], ("v",) = ref[3:], ("x", a, b) = cross(a, b), ("u", a) = a / |a|; None when not understood."""
+    if depth > 8:
+        return None
+    if isinstance(e, ast.Name) and e.id in defs and len(defs[e.id]) == 1:
+        return _vec_form(defs[e.id][0], defs, ref, depth + 1)
+    k, base = slice_kind(e)
+    if k is not None:
+        return ("p",) if (k == "pos" and base == ref) else (("v",) if (k == "vel" and base == ref) else None)
+    if isinstance(e, ast.Call) and call_name(e) == "cross" and len(e.args) == 2 and not e.keywords:
+        a, b = _vec_form(e.args[0], defs, ref, depth + 1), _vec_form(e.args[1], defs, ref, depth + 1)
+        return ("x", a, b) if a is not None and b is not None else None
+    if isinstance(e, ast.BinOp) and isinstance(e.op, ast.Div) and isinstance(e.right, ast.Call) and call_name(e.right) == "norm" and len(e.right.args) == 1:
+        a, b = _vec_form(e.left, defs, ref, depth + 1), _vec_form(e.right.args[0], defs, ref, depth + 1)
+        if a is None or b is None:
+            return None
+        return ("u", a) if a == b else ("nu", a, b)  # nu: divided by the length of another vector - not a unit vector
+    return None
+
+
+_H = ("x", ("p",), ("v",))
+_HN = ("x", ("v",), ("p",))
+
+
+def _triad_verdict(rows, family):
+    """rows: three abstract vectors.  family 'RSW': documented triad (u(p), u(h) x u(p), u(h)); 'NTW': (u(v) x u(h),
+    u(v), u(h)).  Returns list of complaints (empty when the rows are that orthonormal right-handed triad)."""
+    up, uv, uh = ("u", ("p",)), ("u", ("v",)), ("u", _H)
+    if family == "RSW":
+        prim = {0: up, 2: uh}
+        third, cyc = 1, (2, 0)  # e2 = e3 x e1
+    else:
+        prim = {1: uv, 2: uh}
+        third, cyc = 0, (1, 2)  # e1 = e2 x e3
+    bad = []
+    names = {"RSW": "RSW", "NTW": "NTW"}[family]
+    for i, want in prim.items():
+        if rows[i] != want:
+            if rows[i][0] == "nu":
+                bad.append(f"row {i + 1} is divided by the length of a different vector: it is not a unit vector, the matrix does not preserve lengths")
+            elif rows[i] == ("u", _HN) and want == uh:
+                bad.append(f"row {i + 1} is the unit vector of v x r: the cross-track axis must point along the angular momentum r x v")
+            else:
+                bad.append(f"row {i + 1} of the {names} matrix is not the documented unit vector ({'r/|r|' if want == up else ('v/|v|' if want == uv else '(r x v)/|r x v|')})")
+    t = rows[third]
+    a, b = rows[cyc[0]], rows[cyc[1]]
+    if t == ("x", a, b):
+        pass
+    elif t == ("x", b, a):
+        bad.append(f"row {third + 1} is the cross product of the other two in the reversed order: the triad is left-handed (determinant -1)")
+    else:
+        bad.append(f"row {third + 1} is not the cross product of the other two rows: the triad is not orthonormal for every state (r and v are not perpendicular in general)")
+    return bad
+
+
+def rule_r9(chk, p, t, rid="C04.R9", only=None):
+    r = chk.rule(
+        rid,
+        "satellite-frame triads are orthonormal and right-handed",
+        3 if only is None else len(only),
+        "in eci2rsw, rsw2eci and ntw2eci the three rows of the rotation are built from ONE reference state as two unit "
+        "vectors that are perpendicular by construction (r/|r| or v/|v|, and (r x v)/|r x v|) and their cross product in "
+        "cyclic order, in the documented row order; the matrix (rows = basis: ECI -> frame, transposed: frame -> ECI) is "
+        "applied to position and velocity alike. Decided algebraically for every state, so lengths and relative geometry "
+        "are preserved and the pair is mutually inverse as rotations",
+        "rounding of the products",
+    )
+    table = (("eci2rsw", "RSW", False), ("rsw2eci", "RSW", True), ("ntw2eci", "NTW", True))
+    for name, fam, transposed in table:
+        if only is not None and name not in only:
+            continue
+        fn = p.func(f"{METHODS}.{name}")
+
+        def one(fn=fn, fam=fam, transposed=transposed, name=name):
+            defs = _local_defs(fn)
+            ref = fn.params[0]
+            pos, vel = position_velocity_terms_raw(fn)
+            mats = []
+            slot_bad = []
+            for term, want_kind in ((pos, "pos"), (vel, "vel")):
+                c = chain(inline_matrix_only(term, defs))
+                require(len(c) == 2, f"{name}: a component is not `M @ x`", fn.node)
+                opk, _ = slice_kind(_resolve_slice(c[1], defs))
+                require(opk is not None, f"{name}: the operand of the {want_kind} component is not a position / velocity slice", fn.node)
+                if opk != want_kind:
+                    slot_bad.append(f"the {'position' if want_kind == 'pos' else 'velocity'} component of the result is computed from the {'position' if opk == 'pos' else 'velocity'} slots of the input")
+                mats.append(c[0])
+            bad = list(slot_bad)
+            if unparse(mats[0]) != unparse(mats[1]):
+                bad.append("position and velocity are rotated by different matrices")
+            m = mats[0]
+            is_t = False
+            while True:
+                if isinstance(m, ast.Name) and m.id in defs and len(defs[m.id]) == 1:
+                    m = defs[m.id][0]
+                elif isinstance(m, ast.Attribute) and m.attr == "T":
+                    is_t, m = not is_t, m.value
+                elif isinstance(m, ast.Call) and call_name(m) == "transpose" and len(m.args) == 1:
+                    is_t, m = not is_t, m.args[0]
+                else:
+                    break
+            require(isinstance(m, ast.Call) and call_name(m) in ("array", "asarray", "vstack", "stack") and m.args and isinstance(m.args[0], (ast.List, ast.Tuple)) and len(m.args[0].elts) == 3, f"{name}: the rotation is not a stack of three basis rows", fn.node)
+            rows = [_vec_form(x, defs, ref) for x in m.args[0].elts]
+            if any(x is None for x in rows):
+                raise Undecided(f"{name}: a basis row is not built from `{ref}[:3]`, `{ref}[3:]`, cross and normalisation", fn.node)
+            if is_t != transposed:
+                bad.append(f"the basis rows are {'transposed' if is_t else 'not transposed'}: {name} must apply the {'transpose (frame -> ECI)' if transposed else 'rows (ECI -> frame)'}")
+            bad += _triad_verdict(rows, fam)
+            if bad:
+                r.violation(fn.qualname, f"triad:{name}:" + ";".join(b[:40] for b in bad), f"{name}: " + "; ".join(bad), fn.loc())
+            else:
+                r.ok(fn.qualname, f"{fam} triad from `{ref}`: two perpendicular unit vectors and their cross product in cyclic order; {'columns' if transposed else 'rows'} = basis", fn.loc(), obligations=5)
+
+        r.guard(fn.qualname, one)
+
+
+def position_velocity_terms_raw(fn):
+    rets = [n for n in walk_no_nested(fn.node) if isinstance(n, ast.Return) and n.value is not None]
+    require(len(rets) == 1, f"{fn.name}: expected a single return", fn.node)
+    e = rets[0].value
+    defs = _local_defs(fn)
+    while isinstance(e, ast.Name) and e.id in defs and len(defs[e.id]) == 1:
+        e = defs[e.id][0]
+    require(isinstance(e, ast.Call) and call_name(e) in ("concatenate", "hstack") and e.args and isinstance(e.args[0], (ast.Tuple, ast.List)) and len(e.args[0].elts) == 2, f"{fn.name}: return is not concatenate((position, velocity))", rets[0])
+    return e.args[0].elts[0], e.args[0].elts[1]
+
+
+def inline_matrix_only(term, defs):
+    while isinstance(term, ast.Name) and term.id in defs and len(defs[term.id]) == 1:
+        term = defs[term.id][0]
+    return term
+
+
+def _resolve_slice(e, defs, depth=0):
+    """x[:3] possibly of a local that is itself a plain (difference of) state(s): the slot kind is what matters."""
+    while isinstance(e, ast.Name) and e.id in defs and len(defs[e.id]) == 1 and depth < 6:
+        e, depth = defs[e.id][0], depth + 1
+    return e
+
+
+# ====================================================================== R10
+MEAS = "resonaate.physics.measurements"
+
+
+def _inline_measurement_helpers(p, e):
+    """Replace calls of the single-return measurement helpers (getRange(x) ...) by their returned expression."""
+    table = {}
+    for nm in ("getRange", "getElevation", "getRangeRate"):
+        if p.has_func(f"{MEAS}.{nm}"):
+            fi = p.func(f"{MEAS}.{nm}")
+            rets = [n for n in walk_no_nested(fi.node) if isinstance(n, ast.Return) and n.value is not None]
+            if len(rets) == 1 and len(fi.params) == 1:
+                table[nm] = (fi.params[0], inline_locals(fi, rets[0].value))
+
+    class T(ast.NodeTransformer):
+        def visit_Call(self, n):
+            self.generic_visit(n)
+            nm = call_name(n)
+            if nm in table and len(n.args) == 1 and not n.keywords:
+                prm, body = table[nm]
+                arg = n.args[0]
+
+                class S(ast.NodeTransformer):
+                    def visit_Name(self, x):
+                        return copy.deepcopy(arg) if x.id == prm else x
+
+                return self.visit(S().visit(copy.deepcopy(body)))
+            return n
+
+    return T().visit(copy.deepcopy(e))
+
+
+def rule_r10(chk, p, t, rid="C04.R10", parts=("forward", "inverse", "measurement")):
+    from rsa import ratfun as rf
+    from rsa.terms import NotEvaluable, returned_exprs
+
+    r = chk.rule(
+        rid,
+        "spherical model: forward definition, exact derivative rows, and every angle recovery agrees with it",
+        {"forward": 2, "inverse": 2, "measurement": 4}.get(parts[0], 2) if len(parts) == 1 else sum({"forward": 2, "inverse": 2, "measurement": 4}[x] for x in parts),
+        "spherical2cartesian is (rho cos(th) cos(ph), rho cos(th) sin(ph), rho sin(th)) and its velocity rows are the exact time "
+        "derivative of the position rows (formal differentiation, compared as polynomials); cartesian2spherical returns, in the "
+        "forward function's parameter order, |r|, arcsin(z/|r|), atan2 with the sine-carrying component first and the "
+        "cosine-carrying component second under one positive scale (quadrant agreement) wrapped to [0, 2pi), r.v/|r| and the "
+        "angular rates as rational functions equal to the reference ones; the measurement functions getRange / getElevation / "
+        "getAzimuth / getRangeRate are the same recoveries applied to the axis-flipped SEZ vector of razel2sez (so range, "
+        "azimuth and elevation invert the measurement model). Quotients are compared by cross multiplication, so the verdict "
+        "does not depend on how an expression is associated or factored",
+        "values at the singular directions (zenith), rounding",
+    )
+    s2c = p.func(f"{METHODS}.spherical2cartesian")
+    c2s = p.func(f"{METHODS}.cartesian2spherical")
+
+    def fwd_rows():
+        rets = [n for n in walk_no_nested(s2c.node) if isinstance(n, ast.Return) and n.value is not None]
+        require(len(rets) == 1, "spherical2cartesian: single return expected", s2c.node)
+        e = inline_locals(s2c, rets[0].value)
+        arr = e.args[0] if isinstance(e, ast.Call) and call_name(e) in ("array", "asarray") and e.args else e
+        require(isinstance(arr, (ast.List, ast.Tuple)) and len(arr.elts) == 6, "spherical2cartesian does not return a 6-element array literal", rets[0])
+        require(len(s2c.params) == 6, "spherical2cartesian: six parameters expected", s2c.node)
+        return arr.elts, rets[0]
+
+    if "forward" in parts:
+
+        def forward():
+            rows, ret = fwd_rows()
+            rho, th, ph, rho_d, th_d, ph_d = s2c.params
+            want = [f"{rho} * cos({th}) * cos({ph})", f"{rho} * cos({th}) * sin({ph})", f"{rho} * sin({th})"]
+            bad = []
+            polys = []
+            for i in range(3):
+                got = rf.ratfun(rows[i])
+                polys.append(got)
+                if not rf.rat_equal(got, rf.ratfun(rf.parse(want[i]))):
+                    bad.append(f"position row {i} = `{unparse(rows[i])[:70]}` (documented physics convention: `{want[i]}`)")
+            if bad:
+                r.violation(s2c.qualname + ":position", "forward-position:" + ";".join(b[:40] for b in bad), "spherical2cartesian position rows deviate from the documented spherical convention: " + "; ".join(bad), s2c.loc(ret))
+            else:
+                r.ok(s2c.qualname + ":position", "(rho cos th cos ph, rho cos th sin ph, rho sin th)", s2c.loc(ret), obligations=3)
+
+            def atom(src):
+                (m, _c), = rf.ratfun(rf.parse(src))[0].items()
+                return m[0]
+
+            def P(src):
+                return rf.ratfun(rf.parse(src))[0]
+
+            rules = {
+                atom(rho): P(rho_d),
+                atom(f"cos({th})"): P(f"-sin({th}) * {th_d}"),
+                atom(f"sin({th})"): P(f"cos({th}) * {th_d}"),
+                atom(f"cos({ph})"): P(f"-sin({ph}) * {ph_d}"),
+                atom(f"sin({ph})"): P(f"cos({ph}) * {ph_d}"),
+            }
+            bad = []
+            for i in range(3):
+                num, den = polys[i]
+                if rf.p_key(den) != rf.p_key(rf.ONE):
+                    raise Undecided(f"spherical2cartesian: position row {i} is not a polynomial in rho and the sines / cosines", ret)
+                d = rf.p_derivative(num, rules)
+                got = rf.ratfun(rows[i + 3])
+                if not rf.rat_equal(got, (d, rf.ONE)):
+                    bad.append(f"velocity row {i + 3} = `{unparse(rows[i + 3])[:90]}` is not the time derivative of position row {i}")
+            if bad:
+                r.violation(s2c.qualname + ":velocity", "forward-velocity:" + ";".join(b[:30] for b in bad), "spherical2cartesian: " + "; ".join(bad), s2c.loc(ret))
+            else:
+                r.ok(s2c.qualname + ":velocity", "rows 3-5 are d/dt of rows 0-2 (product rule, exact)", s2c.loc(ret), obligations=3)
+
+        r.guard(s2c.qualname, forward)
+
+    def check_atan(e, sin_src, cos_src, alt=None):
+        """e must be wrapAngle2Pi(arctan2(A, B)) with A = s * sin_src, B = s * cos_src, s > 0.  Returns complaints."""
+        bad = []
+        inner = e
+        if isinstance(e, ast.Call) and call_name(e) == "wrapAngle2Pi" and len(e.args) == 1:
+            inner = e.args[0]
+        else:
+            bad.append("the angle is not wrapped to [0, 2pi) by wrapAngle2Pi")
+        if not (isinstance(inner, ast.Call) and call_name(inner) in ("arctan2", "atan2") and len(inner.args) == 2):
+            return bad + [f"the angle `{unparse(inner)[:60]}` is not a two-argument arctangent (quadrant lost)"]
+        A, B = rf.ratfun(inner.args[0]), rf.ratfun(inner.args[1])
+        S, C = rf.ratfun(rf.parse(sin_src)), rf.ratfun(rf.parse(cos_src))
+        pa, pb = rf.positive_scale(A, S), rf.positive_scale(B, C)
+        if pa is True and pb is True and rf.rat_equal((rf.p_mul(A[0], C[0]), rf.p_mul(A[1], C[1])), (rf.p_mul(B[0], S[0]), rf.p_mul(B[1], S[1]))):
+            return bad
+        # diagnose
+        if rf.positive_scale(A, C) is not None and rf.positive_scale(B, S) is not None:
+            return bad + [f"arctan2 arguments are swapped: the first must be proportional to `{sin_src}` (sine-carrying), the second to `{cos_src}`"]
+        if pa is False or pb is False:
+            return bad + [f"arctan2(`{unparse(inner.args[0])[:40]}`, `{unparse(inner.args[1])[:40]}`): an argument has the opposite sign of `{sin_src}` / `{cos_src}` (angle mirrored or shifted by pi)"]
+        if pa is True and pb is True:
+            return bad + ["the two arctan2 arguments are scaled by different factors"]
+        return bad + [f"arctan2(`{unparse(inner.args[0])[:40]}`, `{unparse(inner.args[1])[:40]}`) is not a positive multiple of (`{sin_src}`, `{cos_src}`)"]
+
+    if "inverse" in parts:
+
+        def inverse():
+            try:
+                rets = returned_exprs(c2s)
+            except NotEvaluable as e:
+                raise Undecided(f"cartesian2spherical: {e}", c2s.node)
+            x = c2s.params[0]
+            regular = [(e, c) for e, c in rets if isinstance(e, ast.Tuple) and len(e.elts) == 6]
+            require(len(regular) == len(rets) and rets, "cartesian2spherical does not return a 6-tuple on every path", c2s.node)
+            horiz = rf.ratfun(rf.parse(f"sqrt({x}[0] ** 2 + {x}[1] ** 2)"))
+            n_reg = n_deg = 0
+            for e, conds in rets:
+                # classify the path by its condition on the horizontal magnitude
+                kind = None
+                for c, pol in conds:
+                    if isinstance(c, ast.Compare) and len(c.ops) == 1 and isinstance(c.comparators[0], ast.Constant) and c.comparators[0].value == 0 and rf.rat_equal(rf.ratfun(c.left), horiz):
+                        if isinstance(c.ops[0], (ast.NotEq, ast.Gt)):
+                            kind = "regular" if pol else "degenerate"
+                        elif isinstance(c.ops[0], (ast.Eq, ast.LtE)):
+                            kind = "degenerate" if pol else "regular"
+                if kind is None and len(rets) == 1:
+                    kind = "regular"
+                if kind is None:
+                    raise Undecided("cartesian2spherical: a path is not selected by a test of the horizontal magnitude sqrt(x^2 + y^2) against 0", c2s.node)
+                el = e.elts
+                bad = []
+                pos, vel = f"{x}[:3]", f"{x}[3:]"
+                if not rf.rat_equal(rf.ratfun(el[0]), rf.ratfun(rf.parse(f"norm({pos})"))):
+                    bad.append(f"slot 0 (rho) = `{unparse(el[0])[:50]}` is not norm({pos})")
+                if not (isinstance(el[1], ast.Call) and call_name(el[1]) in ("arcsin", "asin") and rf.rat_equal(rf.ratfun(el[1].args[0]), rf.ratfun(rf.parse(f"{x}[2] / norm({pos})")))):
+                    bad.append(f"slot 1 (theta) = `{unparse(el[1])[:60]}` is not arcsin(z / |r|) - the forward model puts rho sin(theta) on component 2")
+                if kind == "regular":
+                    n_reg += 1
+                    bad += ["slot 2 (phi): " + b for b in check_atan(el[2], f"{x}[1]", f"{x}[0]")]
+                else:
+                    n_deg += 1
+                    bad += ["slot 2 (phi, vertical position): " + b for b in check_atan(el[2], f"{x}[4]", f"{x}[3]")]
+                if not rf.rat_equal(rf.ratfun(el[3]), rf.ratfun(rf.parse(f"dot({pos}, {vel}) / norm({pos})"))):
+                    bad.append(f"slot 3 (rho rate) = `{unparse(el[3])[:60]}` is not r.v / |r|")
+                if kind == "regular":
+                    want4 = f"({x}[5] - dot({pos}, {vel}) / norm({pos}) * ({x}[2] / norm({pos}))) / sqrt({x}[0] ** 2 + {x}[1] ** 2)"
+                    want5 = f"({x}[0] * {x}[4] - {x}[1] * {x}[3]) / ({x}[0] ** 2 + {x}[1] ** 2)"
+                    if not rf.rat_equal(rf.ratfun(el[4]), rf.ratfun(rf.parse(want4))):
+                        bad.append(f"slot 4 (theta rate) = `{unparse(el[4])[:70]}` differs from (vz - rdot z/|r|) / sqrt(x^2 + y^2)")
+                    if not rf.rat_equal(rf.ratfun(el[5]), rf.ratfun(rf.parse(want5))):
+                        bad.append(f"slot 5 (phi rate) = `{unparse(el[5])[:70]}` differs from (x vy - y vx) / (x^2 + y^2)")
+                cons = f"{c2s.qualname}:{kind}"
+                if bad:
+                    r.violation(cons, "inverse:" + ";".join(b[:45] for b in bad), f"cartesian2spherical ({kind} path) does not invert spherical2cartesian slot by slot: " + "; ".join(bad), c2s.loc())
+                else:
+                    r.ok(cons, "rho, theta, phi (sine component first, positive common scale, wrapped), rates", c2s.loc(), obligations=6 if kind == "regular" else 4)
+            if n_reg < 1:
+                r.error(c2s.qualname, "no regular path found in cartesian2spherical")
+
+        r.guard(c2s.qualname, inverse)
+
+    if "measurement" in parts:
+        rz = p.func(f"{METHODS}.razel2sez")
+
+        def flip():
+            rr = [n for n in walk_no_nested(rz.node) if isinstance(n, ast.Return)][0].value
+            mm = is_matmul(rr)
+            require(mm is not None, "razel2sez is not spherical2cartesian(...).dot(D)", rz.node)
+            sph, D = mm
+            require(isinstance(D, ast.Call) and call_name(D) in ("diagflat", "diag") and D.args and isinstance(D.args[0], (ast.List, ast.Tuple)) and len(D.args[0].elts) == 6, "axis flip is not a diagflat literal", rz.node)
+            vals = []
+            for e in D.args[0].elts:
+                v = const_value(e)
+                require(v in (1, -1), "axis flip entry is not +-1", e)
+                vals.append(int(v))
+            require(isinstance(sph, ast.Call) and call_name(sph) == "spherical2cartesian" and len(sph.args) == 6, "razel2sez does not call spherical2cartesian", rz.node)
+            order = [unparse(a) for a in sph.args[:3]]
+            require(order == [rz.params[0], rz.params[1], rz.params[2]] and len(rz.params) >= 3, "razel2sez argument order is not (range, elevation, azimuth) -> (rho, theta, phi)", rz.node)
+            return vals
+
+        def sgn(v, src):
+            return src if v > 0 else f"-{src}"
+
+        def m_range():
+            fn = p.func(f"{MEAS}.getRange")
+            flip()
+            x = fn.params[0]
+            rets = returned_exprs(fn)
+            bad = [unparse(e)[:60] for e, _c in rets if not rf.rat_equal(rf.ratfun(_inline_measurement_helpers(p, e)), rf.ratfun(rf.parse(f"norm({x}[:3])")))]
+            if bad:
+                r.violation(fn.qualname, "range:" + ";".join(bad), f"getRange returns `{bad[0]}`, not the length of the slant-range position", fn.loc())
+            else:
+                r.ok(fn.qualname, "|rho|", fn.loc())
+
+        def m_el():
+            fn = p.func(f"{MEAS}.getElevation")
+            D = flip()
+            x = fn.params[0]
+            rets = returned_exprs(fn)
+            bad = []
+            for e, _c in rets:
+                e = _inline_measurement_helpers(p, e)
+                if not (isinstance(e, ast.Call) and call_name(e) in ("arcsin", "asin") and len(e.args) == 1 and rf.rat_equal(rf.ratfun(e.args[0]), rf.ratfun(rf.parse(f"{sgn(D[2], x + '[2]')} / norm({x}[:3])")))):
+                    bad.append(unparse(e)[:70])
+            if bad:
+                r.violation(fn.qualname, "elevation:" + ";".join(bad), f"getElevation returns `{bad[0]}`, not arcsin(Z / |rho|): razel2sez puts rho sin(el) on the zenith component", fn.loc())
+            else:
+                r.ok(fn.qualname, "arcsin(Z / |rho|)", fn.loc())
+
+        def m_az():
+            fn = p.func(f"{MEAS}.getAzimuth")
+            D = flip()
+            x = fn.params[0]
+            rets = returned_exprs(fn)
+            require(rets, "getAzimuth: no return", fn.node)
+            n_ok = 0
+            for e, conds in rets:
+                e = _inline_measurement_helpers(p, e)
+                zen = [pol for c, pol in conds if isinstance(c, ast.Call) and call_name(c) == "fpe_equals"]
+                k = 3 if (zen and zen[0]) else 0
+                if zen:
+                    c = [c for c, _pol in conds if isinstance(c, ast.Call) and call_name(c) == "fpe_equals"][0]
+                    a0 = _inline_measurement_helpers(p, c.args[0])
+                    okc = isinstance(a0, ast.Call) and call_name(a0) in ("arcsin", "asin") and rf.rat_equal(rf.ratfun(c.args[1]), rf.ratfun(rf.parse("PI / 2")))
+                    if not okc:
+                        raise Undecided("getAzimuth: the special case is not `elevation == pi/2`", c)
+                bad = check_atan(e, sgn(D[1 + k], f"{x}[{1 + k}]"), sgn(D[0 + k], f"{x}[{0 + k}]"))
+                cons = f"{fn.qualname}:{'zenith' if k else 'regular'}"
+                if bad:
+                    r.violation(cons, "azimuth:" + ";".join(b[:50] for b in bad), "getAzimuth does not invert razel2sez (which puts rho cos(el) cos(az) on -S and rho cos(el) sin(az) on E): " + "; ".join(bad), fn.loc())
+                else:
+                    n_ok += 1
+                    r.ok(cons, f"atan2(E, -S) on the {'velocity' if k else 'position'} slots, wrapped to [0, 2pi)", fn.loc())
+
+        def m_rr():
+            fn = p.func(f"{MEAS}.getRangeRate")
+            D = flip()
+            require(D[:3] == D[3:], "axis flip differs between position and velocity", rz.node)
+            x = fn.params[0]
+            rets = returned_exprs(fn)
+            bad = [unparse(e)[:70] for e, _c in rets if not rf.rat_equal(rf.ratfun(_inline_measurement_helpers(p, e)), rf.ratfun(rf.parse(f"dot({x}[:3], {x}[3:]) / norm({x}[:3])")))]
+            if bad:
+                r.violation(fn.qualname, "range-rate:" + ";".join(bad), f"getRangeRate returns `{bad[0]}`, not rho . rho_dot / |rho|", fn.loc())
+            else:
+                r.ok(fn.qualname, "rho . rho_dot / |rho|", fn.loc())
+
+        for nm, f in (("getRange", m_range), ("getElevation", m_el), ("getAzimuth", m_az), ("getRangeRate", m_rr)):
+            r.guard(f"{MEAS}.{nm}", f)
+
+
 def run(chk, p, t):
     chk.explanation = (
         "Static decision of structural necessary conditions of C04 by normal forms of rotation chains and matrix "
@@ -1015,8 +1447,8 @@ def run(chk, p, t):
         "geodetic closed form."
     )
     chk.assumptions += ["numpy matmul / dot / multi_dot are matrix products; .T is the transpose", "passive rotation convention of Vallado eq. 3-15 (cited by the module)"]
-    for fn in (rule_r1, rule_r2, rule_r3, rule_r4, rule_r5, rule_r6, rule_r7, rule_r8):
-        rid = "C04.R" + fn.__name__[-1]
+    for fn in (rule_r1, rule_r2, rule_r3, rule_r4, rule_r5, rule_r6, rule_r7, rule_r8, rule_r9, rule_r10):
+        rid = "C04.R" + fn.__name__.split("_r")[-1]
         if not chk.wants(rid):
             continue
         try:
